@@ -40,3 +40,11 @@ pub fn get_grammar_hash(src: RustSrcRef) -> Option<&str> {
     }
     None
 }
+
+/// Verification hooks: re-exports of the (already `pub`) pipeline stage
+/// functions so that an external harness can drive each stage directly.
+/// Compiled only with the cargo feature `verif-hooks`; adds no behaviour.
+#[cfg(feature = "verif-hooks")]
+pub mod verif_hooks {
+    pub use crate::pipeline::prelude::*;
+}
